@@ -81,6 +81,7 @@ class Inst:
 
         from apischema import deserialization_method, serialization_method
 
+        self.method_note = 'operation kinds / field indices enumerated by forks; values and key presence symbolic'
         self.job = job
         mod = types.ModuleType("vf_c15_prog")
         sys.modules[mod.__name__] = mod
